@@ -522,7 +522,8 @@ def _builder_sites(rec: Fn) -> List[Tuple[str, ast.Call, ast.AST]]:
     assigns = [n for n in walk_no_nested(rec.node) if isinstance(n, ast.Assign) and len(n.targets) == 1]
     local_calls: Dict[str, List[Tuple[ast.Call, ast.AST]]] = {}
     for a in assigns:
-        if isinstance(a.targets[0], ast.Name) and isinstance(a.value, ast.Call):
+        if isinstance(a.targets[0], ast.Name) and isinstance(a.value, ast.Call) and not call_name(a.value).startswith(("torch.", "np.", "numpy.")):
+            # (tensor / array constructors are data, e.g. the sample input handed to a builder, not builders)
             local_calls.setdefault(a.targets[0].id, []).append((a.value, a))
     for a in assigns:
         t = dotted(a.targets[0])
